@@ -77,17 +77,24 @@ func (tx *Tx) change(f *FeeQuote, output *changeOutput) (uint64, bool, error) {
 	}
 	varIntUpper := VarInt(tx.OutputCount()).UpperLimitInc()
 	if varIntUpper == -1 {
-		return 0, false, nil
-	}
-	changeOutputFee := varIntUpper
-	changeP2pkhByteLen := uint64(0)
-	if output != nil && output.newOutput {
-		changeP2pkhByteLen = uint64(8 + 1 + 25)
+		return 0, false, nil // upper limit of Outputs in one tx reached
 	}
 
-	sFees := (size.TotalStdBytes + changeP2pkhByteLen) * uint64(stdFee.MiningFee.Satoshis) / uint64(stdFee.MiningFee.Bytes)
+	// A new change output adds its own serialised size (value, script length prefix and
+	// script) and, when it takes the output count across a VarInt boundary, the extra bytes
+	// of the count. All of these are charged at the standard rate.
+	changeOutputByteLen := uint64(0)
+	if output != nil && output.newOutput {
+		scriptLen := uint64(0)
+		if output.lockingScript != nil {
+			scriptLen = uint64(len(*output.lockingScript))
+		}
+		changeOutputByteLen = 8 + uint64(VarInt(scriptLen).Length()) + scriptLen + uint64(varIntUpper)
+	}
+
+	sFees := (size.TotalStdBytes + changeOutputByteLen) * uint64(stdFee.MiningFee.Satoshis) / uint64(stdFee.MiningFee.Bytes)
 	dFees := size.TotalDataBytes * uint64(dataFee.MiningFee.Satoshis) / uint64(dataFee.MiningFee.Bytes)
-	txFees := sFees + dFees + uint64(changeOutputFee)
+	txFees := sFees + dFees
 
 	// not enough to add change, no change to add
 	if available <= txFees || available-txFees <= DustLimit {
